@@ -417,7 +417,12 @@ fn interop() -> Value {
 
 pub fn c08(thorough: bool) -> Vec<Value> {
     let nvs: &[usize] = if thorough { &[2, 4, 6] } else { &[2, 4] };
-    let uni: Vec<(usize, i64)> = if thorough { vec![(1, -1), (2, -1), (5, -1), (16, -1), (33, -1), (100, -1), (255, -1)] } else { vec![(1, -1), (5, -1), (16, -1), (33, -1), (100, -1)] };
+    // sizes with 2 matrix rows, and sizes with 4 / 8 rows whose last row is short by 0, 1 and more entries
+    let uni: Vec<(usize, i64)> = if thorough {
+        vec![(1, -1), (2, -1), (5, -1), (16, -1), (33, -1), (100, -1), (255, -1), (383, -1), (384, -1), (401, -1), (402, -1), (1001, -1), (2001, -1), (2005, -1)]
+    } else {
+        vec![(1, -1), (5, -1), (16, -1), (33, -1), (100, -1), (400, -1), (401, -1), (402, -1), (2001, -1)]
+    };
     let ml: Vec<(usize, i64)> = if thorough { vec![(1, 1), (1, 2), (1, 3), (1, 5), (1, 8)] } else { vec![(1, 1), (1, 3), (1, 5)] };
     vec![
         hyrax(nvs),
